@@ -6,7 +6,8 @@ EXTENDS Integers, FiniteSets, TLC, Json
 
 CONSTANTS Conns, Burst, R, Chunk, Horizon,
           PerConn,   \* mutant: one limiter per connection instead of per listener
-          NoWait     \* mutant: WaitN result ignored
+          NoWait,    \* mutant: WaitN result ignored
+          MaxWait    \* mutant (if > 0): WaitN gives up - charging nothing - when the wait would exceed MaxWait ticks
 
 VARIABLES now, tokens, last, wake, moved, wStart, wMoved
 vars == <<now, tokens, last, wake, moved, wStart, wMoved>>
@@ -27,9 +28,12 @@ IO(c, n) ==
   /\ wake[c] <= now
   /\ LET b == Bk(c)
          avail == Min(Burst, tokens[b] + R * (now - last[b]))
-         left == avail - n IN
-     /\ tokens' = [tokens EXCEPT ![b] = left] /\ last' = [last EXCEPT ![b] = now]
-     /\ wake' = [wake EXCEPT ![c] = IF NoWait \/ left >= 0 THEN now ELSE now + CeilDiv(0 - left, R)]
+         left == avail - n
+         need == IF left >= 0 THEN 0 ELSE CeilDiv(0 - left, R)
+         giveUp == MaxWait > 0 /\ need > MaxWait IN       \* x/time/rate: no reservation is made, the bytes go uncharged
+     /\ IF giveUp THEN UNCHANGED <<tokens, last>>
+        ELSE tokens' = [tokens EXCEPT ![b] = left] /\ last' = [last EXCEPT ![b] = now]
+     /\ wake' = [wake EXCEPT ![c] = IF NoWait \/ giveUp THEN now ELSE now + need]
   /\ moved' = moved + n
   /\ UNCHANGED <<now, wStart, wMoved>>
 
@@ -46,7 +50,10 @@ RateBound == moved - wMoved <= Burst + R * (now - wStart) + Cardinality(Conns) *
 (* ---------------- configurations replayed against real listeners ---------------- *)
 \* --read-limit throttles proxy->client (downloads), --write-limit client->proxy (uploads); 0 = none
 Limits == {0, 4, 8}                     \* MiB/s
+\* a crowd: so many connections on a slow listener that the limiter's backlog is seconds deep
+Crowd == 64
 Cases == [read : Limits, write : Limits, conns : 1..3, dir : {"download", "upload"}, kind : {"plain", "tunnel"}]
+         \cup [read : {0, 1}, write : {0, 1}, conns : {Crowd}, dir : {"download", "upload"}, kind : {"plain", "tunnel"}]
 LimitFor(c) == IF c.dir = "download" THEN c.read ELSE c.write
 Expect(c) == [limited |-> LimitFor(c) # 0, rate |-> LimitFor(c)]
 EmitCases == \A c \in Cases : PrintT(ToJson([c |-> c, exp |-> Expect(c)]))
